@@ -171,6 +171,7 @@ class FakeNet:
         self.clock = None       # optional VClock for contact timestamps
         self.contacts = []      # (time, sockaddr, ok) for every connect() attempt
         self.keep_sent = False
+        self.raised = []        # exception objects raised because a server is failing (identity matters to C13)
         self.sentlog = []       # (callid, sockid, bytes) when keep_sent
         self.sendinfo = {}      # (callid, idx) -> (replying commands, reply bytes) of that sendall
         self._owner_refs = []   # strong refs so ids are never reused
@@ -235,6 +236,11 @@ class FakeNet:
                     return kind
                 return None
         return None
+
+    def health_exc(self, kind):
+        e = make_exc(kind)
+        self.raised.append(e)
+        return e
 
     def alarm(self, kind, detail):
         with self.lock:
@@ -378,10 +384,11 @@ class FakeSocket:
             net.contacts.append((now, key, False, net.ctx.call))
             raise make_exc(k)
         health = getattr(srv, "health", "up") if srv is not None else "refused"
+        self.connect_call = net.ctx.call
         if health in ("refused", "timeout"):
             net.contacts.append((now, key, False, net.ctx.call))
             self.faulted = True
-            raise make_exc(health)
+            raise net.health_exc(health)
         net.contacts.append((now, key, True if health == "up" else False, net.ctx.call))
         self.server = srv
         self.session = srv.session()
@@ -404,9 +411,14 @@ class FakeSocket:
             raise make_exc(k)
         if k in ("reset", "brokenpipe", "timeout"):
             raise make_exc(k)
-        if getattr(self.server, "health", "up") == "reset":
+        health = getattr(self.server, "health", "up")
+        if self.connect_call != net.ctx.call and self.contact_call != net.ctx.call:
+            # first exchange of this call on a connection established earlier: a contact as well
+            self.contact_call = net.ctx.call
+            net.contacts.append((net.clock.now() if net.clock else None, self.addr_key(), health == "up", net.ctx.call))
+        if health != "up":
             self.faulted = True
-            raise make_exc("reset")
+            raise net.health_exc("reset")
         if self.peer_closed or (self.session is not None and self.session.closed):
             return None     # kernel accepts the bytes; the peer is gone
         replies = self.session.feed(bytes(data), net.ctx.call)
@@ -446,6 +458,12 @@ class FakeSocket:
         return None
 
     stall_after = False
+    connect_call = None
+    contact_call = None
+
+    def addr_key(self):
+        a = self.addr
+        return tuple(a) if isinstance(a, (tuple, list)) else a
     trunc_effective = False
 
     def recv(self, n):
@@ -476,10 +494,10 @@ class FakeSocket:
         if self.eintr_left > 0:
             self.eintr_left -= 1
             raise InterruptedError(errno.EINTR, "Interrupted system call (injected)")
-        if getattr(self.server, "health", "up") == "reset":
+        if getattr(self.server, "health", "up") != "up":
             self.faulted = True
             self.rx.clear()
-            raise make_exc("reset")
+            raise net.health_exc("reset")
         avail = self.pending()
         if avail == 0:
             if self.peer_closed:
